@@ -351,6 +351,17 @@ def reuse_designs():
             py4hw.Reg(dut, 'r3', d, q3, reset=r, reset_value=rv)
             return [d, r, e], [q1, q2, q3]
         out.append(('Reg reset_value %d reused' % rv, f))
+    # registers beyond a machine word with different reset values (top bit set, more than 53 significant bits, negative):
+    # whatever names their modules get, instances under one name must load the same reset value
+    for w in (33, 54, 64, 100):
+        def f(hw, dut, w=w):
+            d = hw.wire('d', w); r = hw.wire('r')
+            qs = [hw.wire('q%d' % k, w) for k in range(5)]
+            rvs = [(1 << (w - 1)) + 1, (1 << (w - 1)) + 3, 1, (1 << w) - 2, -1]
+            for k, (q, rv) in enumerate(zip(qs, rvs)):
+                py4hw.Reg(dut, 'r%d' % k, d, q, reset=r, reset_value=rv)
+            return [d, r], qs
+        out.append(('Reg %d bits, five reset values' % w, f))
     for flags in (0, 1):
         def f(hw, dut, flags=flags):
             din = hw.wire('din', 4); dout = hw.wire('dout', 4); push = hw.wire('push'); pop = hw.wire('pop')
